@@ -322,14 +322,27 @@ func opaqueDoc(t *rapid.T) map[string]interface{} {
 }
 
 func TestRoundTrip(t *testing.T) {
-	ev.Rule(chk, "rapid: per DID a create and 0-4 further operations (update / recover / deactivate), all built with client.New*Request from valid inputs: patch lists over all eight actions or opaque documents (create / recover), anchor origins of several JSON types, windows (none / from / from+until), optional nonce and kid, each operation signed with the library's ecsigner / edsigner over keys of all 5 types (JWK via pubkey.GetPublicKeyJWK, commitments via commitment.GetCommitment), both hash algorithms; oracle: Parse accepts under a protocol enabling exactly the used algorithms; ParseOperation + ParseSignedDataFor* return exactly the supplied suffix, commitments, patches (JSON-equal), reveal value, key, anchor origin and window; suffix == independent hash of the suffix data; after anchoring inside the window Resolve shows exactly the kit/refdoc prediction (document, commitments, deactivated); non-trivial = key type other than P-256, or sha2-512, or a window, or >= 3 patches")
+	ev.Rule(chk, "rapid: per DID a create and 0-4 further operations (update / recover / deactivate), all built with client.New*Request from valid inputs: patch lists over all eight actions or opaque documents (create / recover), anchor origins of several JSON types, windows (none / from / from+until), optional nonce and kid, each operation signed with the library's ecsigner / edsigner over keys of all 5 types, every fourth EC key having a public coordinate with a leading zero byte (JWK via pubkey.GetPublicKeyJWK, commitments via commitment.GetCommitment), both hash algorithms; oracle: Parse accepts under a protocol enabling exactly the used algorithms; ParseOperation + ParseSignedDataFor* return exactly the supplied suffix, commitments, patches (JSON-equal), reveal value, key, anchor origin and window; suffix == independent hash of the suffix data; after anchoring inside the window Resolve shows exactly the kit/refdoc prediction (document, commitments, deactivated); non-trivial = key type other than P-256, or sha2-512, or a window, or >= 3 patches")
 	ev.Rapid(t, chk, 300, 3000, func(t *rapid.T) {
 		code := rapid.SampledFrom([]uint64{asm.SHA256, asm.SHA512}).Draw(t, "hash")
 		c := &Case{Code: code, TimeDelta: uint64(rapid.SampledFrom([]int{600, 7207}).Draw(t, "timeDelta"))}
 		nk := 0
+		lzUsed := false
+		usedLZ := map[string]bool{}
 		newKey := func() *keys.Key {
 			nk++
-			return keys.Get(rapid.SampledFrom(keys.AllTypes).Draw(t, "keyType"), "c11", nk)
+			kt := rapid.SampledFrom(keys.AllTypes).Draw(t, "keyType")
+			// every fourth EC key is one whose public coordinate starts with a zero byte (fixed-width JWK encoding)
+			// (each key at most once per DID: re-using a key would violate the builders' own preconditions)
+			if lz := keys.LeadingZero(kt, "c11-lz", 1500); len(lz) > 0 && rapid.IntRange(0, 3).Draw(t, "leadingZeroKey") == 0 {
+				k := lz[rapid.IntRange(0, len(lz)-1).Draw(t, "whichLeadingZero")]
+				if !usedLZ[k.ID()] {
+					usedLZ[k.ID()] = true
+					lzUsed = true
+					return k
+				}
+			}
+			return keys.Get(kt, "c11", nk)
 		}
 		nontrivial := code == asm.SHA512
 		recK, updK := newKey(), newKey()
@@ -437,7 +450,7 @@ func TestRoundTrip(t *testing.T) {
 		for _, s := range c.Steps {
 			types = append(types, "op:"+s.Type, "sign:"+s.KeyType)
 		}
-		ev.Record(chk, nontrivial, ev.Hash(c), append(types, fmt.Sprintf("hash:%d", code))...)
+		ev.Record(chk, nontrivial, ev.Hash(c), append(types, fmt.Sprintf("hash:%d", code), fmt.Sprintf("leading-zero-coordinate-key:%v", lzUsed))...)
 		ev.SampleFn(chk, func() interface{} {
 			var out []string
 			for _, s := range c.Steps {
